@@ -7,6 +7,7 @@ Three rewrites that never change behaviour are undone, so that a rule sees one s
   * ``t = E; return t`` (adjacent; t not read by a finally block) -> ``return E``
   * ``not (a in b)`` / ``not (a is b)`` / ``not (a == b)``  ->  ``a not in b`` / ``a is not b`` / ``a != b``
   * ``x = A if c else B`` (whole statement, plain name target)  ->  ``if c: x = A else: x = B``
+  * ``t = E; if t: ...`` (adjacent, t used nowhere else)  ->  ``if E: ...``
 Line numbers are kept (copy_location), so reports still point at the author's lines."""
 from __future__ import annotations
 
@@ -117,7 +118,33 @@ class _Canon(ast.NodeTransformer):
             i += 1
         return out
 
+    def _inline_cond_temps(self, body):
+        """``t = E; if t: ...`` (adjacent, ``t`` used nowhere else in the function) -> ``if E: ...``: an explaining variable for a
+        condition is the same decision"""
+        out = []
+        i = 0
+        if getattr(self, "_in_pattern", False):
+            return body  # a pattern spells what it means; the matcher accepts the inlined form of `t = E; if t:` on its side
+        while i < len(body):
+            st = body[i]
+            nxt = body[i + 1] if i + 1 < len(body) else None
+            if isinstance(st, ast.Assign) and len(st.targets) == 1 and isinstance(st.targets[0], ast.Name) and isinstance(nxt, ast.If) \
+                    and isinstance(nxt.test, ast.Name) and nxt.test.id == st.targets[0].id and self._uses.get(st.targets[0].id, 0) == 2:
+                nxt.test = st.value
+                if nxt.orelse:
+                    pos = self._positive(nxt.test)
+                    if pos is not None:
+                        nxt.test = pos
+                        nxt.body, nxt.orelse = nxt.orelse, nxt.body
+                out.append(nxt)
+                i += 2
+                continue
+            out.append(st)
+            i += 1
+        return out
+
     def visit_FunctionDef(self, node):
+        self._in_pattern = node.name == "_pat"
         self.generic_visit(node)
         uses = {}
         for n in ast.walk(node):
@@ -130,10 +157,10 @@ class _Canon(ast.NodeTransformer):
             for fld in ("body", "orelse", "finalbody"):
                 b = getattr(holder, fld, None)
                 if isinstance(b, list) and b and isinstance(b[0], ast.stmt) and not isinstance(holder, ast.ClassDef):
-                    setattr(holder, fld, self._split_ternary(self._merge_returns(b)))
+                    setattr(holder, fld, self._inline_cond_temps(self._split_ternary(self._merge_returns(b))))
             if isinstance(holder, ast.Try):
                 for h in holder.handlers:
-                    h.body = self._split_ternary(self._merge_returns(h.body))
+                    h.body = self._inline_cond_temps(self._split_ternary(self._merge_returns(h.body)))
         return node
 
     visit_AsyncFunctionDef = visit_FunctionDef
